@@ -88,10 +88,16 @@ def _transform_mp_worker(queue, done_event, pio_in, pio_out, make_buf, do_one):
     buf = make_buf()
 
     while True:
+        # Sample the "done" flag *before* polling the queue. It is only raised once
+        # every item has been flushed to the queue, so an empty poll that started
+        # after that is conclusive. Checking the flag after the poll is racy: items
+        # can arrive, and the flag be raised, between the timeout and the check.
+        done = done_event.is_set()
+
         try:
             pos = queue.get(True, timeout=1)
         except Empty:
-            if done_event.is_set():
+            if done:
                 break
             continue
 
